@@ -612,7 +612,7 @@ impl Stream {
             format!("{:?}", self.state).replace('"', "'").replace('\\', "/"),
             self.is_counted,
             self.ref_count,
-            self.send_flow.window_size(),
+            self.send_flow.verif_window(),
             isize::from(self.send_flow.available()),
             self.requested_send_capacity,
             self.buffered_send_data,
@@ -621,7 +621,7 @@ impl Stream {
             self.is_pending_open,
             self.is_pending_push,
             self.is_pending_accept,
-            self.recv_flow.window_size(),
+            self.recv_flow.verif_window(),
             isize::from(self.recv_flow.available()),
             self.in_flight_recv_data,
             self.is_recv,
